@@ -498,8 +498,13 @@ func c03units(tier string) []mc.Unit {
 			{"reference JOURNAL", func(s *poly.Sequence, v string) { s.Meta.References[0].Journal = v }},
 			{"qualifier value", func(s *poly.Sequence, v string) { s.Features[0].Attributes["note"] = v }},
 		}
+		quoted := []string{"\"", "a \"b\"", "\"quoted\" start", "ends with a quote \"", "\"\"", "it's", "a \"b\" c"}
 		for _, fd := range fields {
-			for _, v := range vals {
+			vs := vals
+			if fd.name == "qualifier value" || fd.name == "DEFINITION" || fd.name == "COMMENT" || fd.name == "reference TITLE" {
+				vs = append(append([]string{}, vals...), quoted...) // quotation marks at either end of a value and inside it
+			}
+			for _, v := range vs {
 				if strings.HasPrefix(v, "//") && fd.name != "qualifier value" && fd.name != "DEFINITION" {
 					continue
 				}
